@@ -23,11 +23,15 @@ global size_of usize == 8;
 //@include spec.rs
 
 // =====================================================================================
-// A. one section's contribution to the window: body of
-//    `'sections: for (section, last) in &mut self.sections { 'section: loop { .. } }`   (R9 outline)
+// A. one section's contribution to the window: the body of
+//    `'sections: for (section, last) in &mut self.sections { 'section: loop { .. } }`   (R9 outline).
+//    Cut from `fn next` by two presubs: everything up to and including the `for` header becomes the
+//    signature (the window's element type is copied from the real `vec![0f64; DATA_SIZE]`), everything
+//    from the `for`'s closing brace on is dropped.  Kept: the whole `'section: loop { .. }`.
 // =====================================================================================
-//@extract loopbody bigtools/src/utils/merge.rs next 2
-//@header fn next_section(section: &mut VIter, last: &mut Option<Value>, data: &mut Vec<f64>, current_start: u32, max_data_len0: usize, max_sections0: usize, all_none0: bool, self_error: &mut bool, Ghost(k): Ghost<int>) -> (r: (usize, usize, bool, Option<MergeError>))
+//@extract fn bigtools/src/utils/merge.rs next
+//@presub /\Afn next\(&mut self\) -> Option<Self::Item> \{.*?vec!\[0(f\d+); DATA_SIZE\];.*?'sections: for \(section, last\) in &mut self\.sections \{[ \t]*\n/ => fn next_section(section: &mut VIter, last: &mut Option<Value>, data: &mut Vec<\1>, current_start: u32, max_data_len0: usize, max_sections0: usize, all_none0: bool, self_error: &mut bool, Ghost(k): Ghost<int>) -> (r: (usize, usize, bool, Option<MergeError>)) {\n
+//@presub /\n[ \t]*\}\s*(?://[^\n]*\s*)*let mut next_sections: Vec<Value>.*\Z/ => \n}
 //@presub /(\*i\s*[-+*]?=[^;\n]*?)[ \t]*\n(\s*\})/ => \1;\n\2 min=0
 //@rule R5
 //@rule R6
@@ -38,45 +42,45 @@ global size_of usize == 8;
 //@sub /\b(\w+(?:\.\w+)*) as f64\b/ => f64_of_f32(\1) min=0
 //@sig
     requires
-        [[L: pre]]
+        [[L: sec/pre]]
         old(data)@.len() == DATA_SIZE,
-        current_start as int + DATA_SIZE as int <= u32::MAX as int,
         sec_ok(pend(*old(last), *old(section)), current_start as int),
         is_stop(pend(*old(last), *old(section)), k, current_start as int + DATA_SIZE as int),
-        max_data_len0 <= DATA_SIZE,
         max_sections0 as int + pend(*old(last), *old(section)).len() < usize::MAX as int,
     ensures
-        [[L: window_size_kept]]
+        [[L: sec/window_size_kept]]
         final(data)@.len() == DATA_SIZE,
-        [[L: error_sets_flag_and_is_returned_at_once]]
+        [[L: sec/error_sets_flag_and_is_returned_at_once]]
         stop_is_err(pend(*old(last), *old(section)), k) ==> r.3 == Some(pend(*old(last), *old(section))[k]->Err_0) && *final(self_error),
-        [[L: no_error_no_flag]]
+        [[L: sec/no_error_no_flag]]
         !stop_is_err(pend(*old(last), *old(section)), k) ==> r.3 is None && *final(self_error) == *old(self_error),
-        [[L: boundary_reaching_value_stays_pending]]
+        [[L: sec/boundary_reaching_value_stays_pending]]
         // nothing that has bases at or beyond the window end is dropped: the first value reaching the
         // window end is parked (with everything behind it still in the stream)
         !stop_is_err(pend(*old(last), *old(section)), k) ==> pend(*final(last), *final(section)) == pend(*old(last), *old(section)).subrange(k, pend(*old(last), *old(section)).len() as int),
-        [[L: parked_is_the_stop_value]]
+        [[L: sec/parked_is_the_stop_value]]
         (!stop_is_err(pend(*old(last), *old(section)), k) && k < pend(*old(last), *old(section)).len()) ==> *final(last) == Some(pend(*old(last), *old(section))[k]->Ok_0),
         (!stop_is_err(pend(*old(last), *old(section)), k) && k == pend(*old(last), *old(section)).len()) ==> *final(last) is None && final(section).rest().len() == 0,
-        [[L: parked_and_rest_lie_beyond_window]]
+        [[L: sec/parked_and_rest_lie_beyond_window]]
         // the invariant that rules out the u32 underflow in `next_val.end - current_start` in the next window
         !stop_is_err(pend(*old(last), *old(section)), k) ==> sec_ok(pend(*final(last), *final(section)), current_start as int + DATA_SIZE as int),
-        [[L: each_value_added_once_to_exactly_its_cells]]
-        !stop_is_err(pend(*old(last), *old(section)), k) ==> final(data)@ == add_vals(old(data)@, taken(pend(*old(last), *old(section)), k), current_start as int),
-        [[L: max_data_len_is_largest_in_window_end]]
+        [[L: sec/each_value_added_once_to_exactly_its_cells]]
+        !stop_is_err(pend(*old(last), *old(section)), k) ==> c64(final(data)@) == add_vals(c64(old(data)@), taken(pend(*old(last), *old(section)), k), current_start as int),
+        [[L: sec/max_data_len_is_largest_in_window_end]]
         !stop_is_err(pend(*old(last), *old(section)), k) ==> r.0 as int == touch_ends(max_data_len0 as int, taken(pend(*old(last), *old(section)), k), current_start as int),
-        r.0 <= DATA_SIZE,
-        [[L: all_none_iff_no_value_seen]]
+        max_data_len0 <= DATA_SIZE ==> r.0 <= DATA_SIZE,
+        [[L: sec/touched_span_fits_u32]]
+        current_start as int + max_data_len0 as int <= u32::MAX as int ==> current_start as int + r.0 as int <= u32::MAX as int,
+        [[L: sec/all_none_iff_no_value_seen]]
         !stop_is_err(pend(*old(last), *old(section)), k) ==> r.2 == (all_none0 && taken(pend(*old(last), *old(section)), k).len() == 0),
-        [[L: max_sections_counts_values]]
+        [[L: sec/max_sections_counts_values]]
         r.1 as int <= max_sections0 as int + n_taken(pend(*old(last), *old(section)), k),
 //@open
         let mut max_data_len = max_data_len0;
         let mut max_sections = max_sections0;
         let mut all_none = all_none0;
         let ghost p = pend(*last, *section);
-        let ghost d0 = data@;
+        let ghost d0 = c64(data@);
         let ghost m0 = max_data_len as int;
         let ghost s0 = max_sections as int;
         let ghost cs = current_start as int;
@@ -96,17 +100,17 @@ global size_of usize == 8;
                 pend(*last, *section) == p.subrange(j, p.len() as int),
                 j > 0 ==> *last is None,
                 [[L: section/state_is_fold_of_values_taken_so_far]]
-                data@ == add_vals(d0, oks(p, j), cs),
+                c64(data@) == add_vals(d0, oks(p, j), cs),
                 max_data_len as int == touch_ends(m0, oks(p, j), cs),
                 all_none == (all_none0 && j == 0),
                 max_sections as int <= s0 + j,
             invariant
                 [[L: section/frame]]
-                p == pend(*old(last), *old(section)), d0 == old(data)@, cs == current_start as int, wend == cs + DATA_SIZE as int,
-                wend <= u32::MAX as int,
+                p == pend(*old(last), *old(section)), d0 == c64(old(data)@), cs == current_start as int, wend == cs + DATA_SIZE as int,
+                cs + max_data_len0 as int <= u32::MAX as int ==> cs + max_data_len as int <= u32::MAX as int,
                 sec_ok(p, cs), is_stop(p, k, wend),
                 !stop_is_err(p, k) ==> sec_ok(p.subrange(k, p.len() as int), wend),
-                data@.len() == DATA_SIZE, max_data_len <= DATA_SIZE,
+                data@.len() == DATA_SIZE, max_data_len0 <= DATA_SIZE ==> max_data_len <= DATA_SIZE,
                 s0 + p.len() < usize::MAX as int, m0 == max_data_len0 as int, s0 == max_sections0 as int,
                 *self_error == *old(self_error),
                 <f64 as AddSpec<f64>>::obeys_add_spec(),
@@ -114,7 +118,7 @@ global size_of usize == 8;
                 [[L: section/exit_parked]]
                 0 <= k, j == k, k < p.len(), p[k] is Ok,
                 *last == Some(p[k]->Ok_0), section.rest() == p.subrange(k + 1, p.len() as int),
-                data@ == add_vals(d0, oks(p, k + 1), cs),
+                c64(data@) == add_vals(d0, oks(p, k + 1), cs),
                 max_data_len as int == touch_ends(m0, oks(p, k + 1), cs),
                 all_none == false,
                 max_sections as int <= s0 + k + 1,
@@ -134,7 +138,7 @@ global size_of usize == 8;
                         }
                     }
 //@at /^\s*let data_start\b/ before
-                    let ghost d_in = data@;
+                    let ghost d_in = c64(data@);
                     let ghost m_in = max_data_len as int;
                     proof {
                         // the value just obtained is p[j]; the stream behind it is p[j+1..]
@@ -167,9 +171,9 @@ global size_of usize == 8;
                             value == next_val.value,
                             <f64 as AddSpec<f64>>::obeys_add_spec(),
                             [[L: cells/each_cell_of_the_value_gets_one_add]]
-                            data@ == add_range(d_in, data_start as int, i__ as int, f64_of(value)),
+                            c64(data@) == add_range(d_in, data_start as int, i__ as int, f64_of(value)),
 //@loopend 2
-                            proof { assert(data@ =~= add_range(d_in, data_start as int, i__ + 1, f64_of(value))); } [[L: cells/cell_holds_its_old_sum_plus_the_value]]
+                            proof { assert(c64(data@) =~= add_range(d_in, data_start as int, i__ + 1, f64_of(value))); } [[L: cells/cell_holds_its_old_sum_plus_the_value]]
 //@loopend 1
                     proof {
                         assert(next_val.end < wend); [[L: section/value_reaching_window_end_must_be_parked]]
@@ -189,31 +193,32 @@ global size_of usize == 8;
 //    `let insert_into_queue = ..`; everything before and after is cut away by the two presubs.
 // =====================================================================================
 //@extract fn bigtools/src/utils/merge.rs next
-//@presub /\Afn next\(&mut self\) -> Option<Self::Item> \{.*?\n(?=[ \t]*let mut next_sections: Vec<Value>)/ => fn rle(data: &Vec<f64>, max_data_len: usize, current_start: u32, max_sections: usize) -> (out: (Vec<Value>, Ghost<Seq<(int, int)>>)) {\n
+//@presub /\Afn next\(&mut self\) -> Option<Self::Item> \{.*?vec!\[0(f\d+); DATA_SIZE\];.*?\n(?=[ \t]*let mut next_sections: Vec<Value>)/ => fn rle(data: &Vec<\1>, max_data_len: usize, current_start: u32, max_sections: usize) -> (out: (Vec<Value>, Ghost<Seq<(int, int)>>)) {\n
 //@presub /\n[ \t]*let insert_into_queue = .*\Z/ => \n}
 //@rule R5
 //@rule R6
 //@sub /for \(idx, i\) in data\[\.\.([^\]]+?)\]\.iter\(\)\.enumerate\(\) \{/ => slice_bounds(data, 0, \1); for idx in 0..\1 { let i = &data[idx]; min=0
-//@sub /(c\.2|\*i)\s*==\s*(\*i|c\.2|0\.0)/ => f64_eq(\1, \2) min=0
-//@sub /(c\.2|\*i)\s*!=\s*(\*i|c\.2|0\.0)/ => f64_ne(\1, \2) min=0
-//@sub /(\*?\w+(?:\.\w+)*) as f32\b/ => f32_of_f64(\1) min=0
+//@sub /(c\.2|\*i)\s*==\s*(\*i|c\.2|0\.0)/ => cell_eq(\1, \2) min=0
+//@sub /(c\.2|\*i)\s*!=\s*(\*i|c\.2|0\.0)/ => cell_ne(\1, \2) min=0
+//@sub /(\*?\w+(?:\.\w+)*) as f32\b/ => cell_to_f32(\1) min=0
 //@sig
     requires
         [[L: rle/pre]]
         data@.len() == DATA_SIZE, max_data_len <= DATA_SIZE,
-        current_start as int + DATA_SIZE as int <= u32::MAX as int,
+        // the encoder's `idx + current_start + 1` / `c.1 += 1`: the encoded span must fit u32
+        current_start as int + max_data_len as int <= u32::MAX as int,
         max_sections <= usize::MAX / 2,
     ensures
         [[L: rle/every_cell_in_exactly_one_run]]
         runs_tile(out.1@, max_data_len as int),
         [[L: rle/runs_are_maximal_stretches_of_equal_sums]]
-        forall|q: int| 0 <= q < out.1@.len() ==> run_ok(data@, (#[trigger] out.1@[q]).0, out.1@[q].1, max_data_len as int),
+        forall|q: int| 0 <= q < out.1@.len() ==> run_ok(c64(data@), (#[trigger] out.1@[q]).0, out.1@[q].1, max_data_len as int),
         [[L: rle/nonzero_runs_emitted_once_in_order_zero_runs_dropped]]
-        out.0@ == emit(out.1@, data@, current_start as int),
+        out.0@ == emit(out.1@, c64(data@), current_start as int),
         [[L: rle/output_sorted_disjoint_nonempty_within_window]]
         sorted_in(out.0@, current_start as int, current_start as int + max_data_len as int),
 //@open
-        let ghost d = data@;
+        let ghost d = c64(data@);
         let ghost n = max_data_len as int;
         let ghost cs = current_start as int;
         let ghost mut runs: Seq<(int, int)> = Seq::empty();
@@ -222,14 +227,14 @@ global size_of usize == 8;
 //@loop 1
             invariant
                 [[L: rle/frame]]
-                d == data@, n == max_data_len as int, cs == current_start as int, d.len() == DATA_SIZE, n <= DATA_SIZE,
-                0 <= cs, cs + DATA_SIZE as int <= u32::MAX as int,
+                d == c64(data@), n == max_data_len as int, cs == current_start as int, d.len() == DATA_SIZE, n <= DATA_SIZE,
+                0 <= cs, cs + n <= u32::MAX as int,
                 [[L: rle/open_run_is_first_cell_start_and_cells_so_far]]
                 idx == 0 ==> current is None && s == 0,
                 idx > 0 ==> current is Some && 0 <= s < idx,
                 idx > 0 ==> current->Some_0.0 as int == cs + s,
                 idx > 0 ==> current->Some_0.1 as int == cs + idx,
-                idx > 0 ==> current->Some_0.2 == d[s],
+                idx > 0 ==> e64(current->Some_0.2) == d[s],
                 [[L: rle/closed_runs_tile_are_maximal_and_emitted]]
                 rle_deep(runs, next_sections@, d, cs, n, s, idx as int),
 //@at /^\s*let idx = idx as u32;/ before
@@ -345,7 +350,7 @@ spec fn live_inv(it: ValueIter) -> bool {
     &&& stream_sorted(it.hist@.wins, it.next_start as int)
     &&& windows_ok(it.hist@.wins)
     &&& chain_ok(it.hist@.wins, it.next_start as int, pends(it.sections@))
-    &&& inputs_ok(pends(it.sections@), it.next_start as int, it.hist@.limit)
+    &&& inputs_ok(pends(it.sections@), it.next_start as int)
 }
 
 impl ValueIter {
@@ -363,9 +368,8 @@ impl ValueIter {
 //@sig
     requires
         [[L: pre]]
+        // all u32 coordinates: no bound on next_start or on the inputs' ends
         !old(self).error ==> live_inv(*old(self)),
-        // (v) `current_start + DATA_SIZE as u32` must not overflow: see NOTES.md (values near u32::MAX)
-        old(self).next_start as int + DATA_SIZE as int <= u32::MAX as int,
     ensures
         [[L: after_an_error_always_none]]
         old(self).error ==> r is None && final(self).error && final(self).hist@ == old(self).hist@,
@@ -390,15 +394,15 @@ impl ValueIter {
         [[L: windows_advance_by_exactly_data_size_and_chain]]
         !final(self).error ==> chain_ok(final(self).hist@.wins, final(self).next_start as int, pends(final(self).sections@)),
         [[L: pending_inputs_lie_at_or_beyond_next_window]]
-        !final(self).error ==> inputs_ok(pends(final(self).sections@), final(self).next_start as int, final(self).hist@.limit),
+        !final(self).error ==> inputs_ok(pends(final(self).sections@), final(self).next_start as int),
         [[L: none_only_when_everything_is_exhausted_and_handed_out]]
         (r is None && !old(self).error) ==> {
             &&& !final(self).error
             &&& pending_out(*final(self)).len() == 0
-            &&& forall|i: int| 0 <= i < final(self).sections@.len() ==> (#[trigger] pends(final(self).sections@)[i]).len() == 0
+            &&& all_empty(pends(final(self).sections@))
         },
         [[L: history_only_grows]]
-        old(self).hist@.wins.is_prefix_of(final(self).hist@.wins), final(self).hist@.limit == old(self).hist@.limit,
+        old(self).hist@.wins.is_prefix_of(final(self).hist@.wins),
 //@open
         let ghost h0 = self.hist@;
         let ghost n0 = self.next_start as int;
@@ -414,23 +418,18 @@ impl ValueIter {
                     assert(b0 + opt_v(self.last_val) =~= Seq::<Value>::empty() + opt_v(self.last_val));
                 }
             }
-//@at /^\s*let mut max_data_len = 0;/ before
+//@at /^\s*loop \{/ before
         proof {
             assert(buf_of(self.next_sections).len() == 0); [[L: drain/new_window_only_when_the_buffer_is_empty]]
             assert(pending_out(*self) =~= opt_v(self.last_val));
             reveal(inputs_ok);
         }
-        let ghost bound = imax(n0, h0.limit + DATA_SIZE as int);
 //@loop 1
             invariant
                 [[L: windows/frame]]
                 !self.error, self.next_sections is None || buf_of(self.next_sections).len() == 0,
                 h0 == old(self).hist@, n0 == old(self).next_start as int, !old(self).error, buf_of(old(self).next_sections).len() == 0,
-                self.hist@.emitted == h0.emitted, self.hist@.limit == h0.limit, h0.wins.is_prefix_of(self.hist@.wins),
-                max_data_len <= DATA_SIZE,
-                [[L: windows/no_overflow_of_next_start]]
-                bound == imax(n0, h0.limit + DATA_SIZE as int), bound + DATA_SIZE as int <= u32::MAX as int,
-                self.next_start as int <= bound,
+                self.hist@.emitted == h0.emitted, h0.wins.is_prefix_of(self.hist@.wins),
                 [[L: windows/nothing_dropped_nothing_emitted_twice]]
                 conserved(self.hist@, opt_v(self.last_val)),
                 [[L: windows/output_stream_sorted]]
@@ -438,28 +437,36 @@ impl ValueIter {
                 [[L: windows/records]]
                 windows_ok(self.hist@.wins),
                 chain_ok(self.hist@.wins, self.next_start as int, pends(self.sections@)),
-                inputs_ok(pends(self.sections@), self.next_start as int, self.hist@.limit),
+                inputs_ok(pends(self.sections@), self.next_start as int),
             decreases
                 [[L: windows/termination]]
-                bound + DATA_SIZE as int - self.next_start as int,
-//@at /^\s*let mut data = vec!\[0f64; DATA_SIZE\];/ after
+                // next_start grows until it saturates at u32::MAX; the saturated window drains every section,
+                // and with nothing pending the next window sees no value and returns
+                u32::MAX as int - self.next_start as int,
+                (if all_empty(pends(self.sections@)) { 0int } else { 1int }),
+//@at /^\s*let mut all_none = true;/ after
             let ghost pre = pends(self.sections@);
             let ghost hw = self.hist@;
             let ghost lv0 = self.last_val;
+            let ghost ns_in = current_start as int;
             proof {
-                assert(data@ =~= zeros());
                 reveal(inputs_ok);
-                assert(self.next_start as int == current_start as int + DATA_SIZE as int); [[L: windows/next_window_starts_where_this_one_ends]]
+                assert(self.next_start as int == next_cs(current_start as int)); [[L: windows/next_window_starts_where_this_one_ends_saturating_at_u32_max]]
+                assert(c64(data@) =~= zeros()); [[L: windows/every_window_starts_from_all_zero_sums]]
             }
+            let ghost m_in = max_data_len as int;
 //@at /^\s*let rle_out = rle\(/ before
             let ghost ks = acc.4@;
             let ghost post = pends(self.sections@);
             proof {
-                lemma_step_inputs(pre, ks, current_start as int, hw.limit, post);
+                lemma_step_inputs(pre, ks, current_start as int, post);
                 lemma_total_len_suffix_bound(pre, max_sections as int);
+                assert(current_start as int + max_data_len as int <= u32::MAX as int); [[L: windows/encoder_span_fits_u32]]
+                assert(m_in == 0); [[L: windows/max_data_len_counts_this_window_only]]
+                assert(max_data_len <= DATA_SIZE);
             }
 //@at /^\s*let last_val = self\.last_val\.take\(\);/ before
-            let ghost w = Win { cs: current_start as int, pre: pre, ks: ks, data: data@, mdl: max_data_len as int, runs: rle_out.1@, out: next_sections@ };
+            let ghost w = Win { cs: current_start as int, pre: pre, ks: ks, data: c64(data@), mdl: max_data_len as int, runs: rle_out.1@, out: next_sections@ };
             proof {
                 assert(win_ok(w)); [[L: windows/window_record_is_fold_then_rle]]
                 lemma_step_stream(hw, lv0, w);
@@ -504,9 +511,13 @@ impl ValueIter {
             proof {
                 assert(next_sections@.len() == 0);
                 assert(opt_v(self.last_val) =~= queue);
-                // the loop goes on only while some section still saw a value: the window start is not past the last input base
-                if current_start as int > hw.limit { lemma_past_limit(pre, ks, current_start as int, hw.limit); }
-                assert(current_start as int <= hw.limit); [[L: windows/loop_goes_on_only_below_the_last_input_base]]
+                // the loop goes on only if some section saw a value in this window
+                if all_empty(pre) { lemma_empty_none_taken(pre, ks, current_start as int + DATA_SIZE as int); }
+                assert(!all_empty(pre)); [[L: windows/loop_goes_on_only_if_a_section_saw_a_value]]
+                if current_start as int + DATA_SIZE as int > u32::MAX as int {
+                    lemma_saturated_drains(pre, ks, current_start as int + DATA_SIZE as int);
+                    assert(all_empty(post)); [[L: windows/after_the_saturated_window_nothing_is_pending]]
+                }
             }
 //@end
 }
@@ -514,19 +525,19 @@ impl ValueIter {
 // ---------------- the constructor: establishes the state invariant for the first call ----------------
 //@extract fn bigtools/src/utils/merge.rs merge_sections_many
 //@rule R8
-//@sub /pub fn merge_sections_many<I, E>\(sections: Vec<I>\) -> impl Iterator<Item = Result<Value, E>> \+ Send\s*where\s*I: Iterator<Item = Result<Value, E>> \+ Send,/ => fn merge_sections_many(sections: Vec<VIter>, Ghost(limit): Ghost<int>) -> (r: ValueIter)
+//@sub /pub fn merge_sections_many<I, E>\(sections: Vec<I>\) -> impl Iterator<Item = Result<Value, E>> \+ Send\s*where\s*I: Iterator<Item = Result<Value, E>> \+ Send,/ => fn merge_sections_many(sections: Vec<VIter>) -> (r: ValueIter)
 //@sub /sections\.into_iter\(\)\.map\(\|s\| \(s, None\)\)\.collect\(\)/ => pair_with_none(sections) min=0
-//@sub /ValueIter \{/ => let r__ = ValueIter { hist: Ghost(Hist { wins: Seq::empty(), emitted: Seq::empty(), limit: limit }),
+//@sub /ValueIter \{/ => let r__ = ValueIter { hist: Ghost(Hist { wins: Seq::empty(), emitted: Seq::empty() }),
 //@sig
     requires
         [[L: pre]]
-        // C15 input assumption: every stream sorted, disjoint, start <= end; no value ends beyond `limit`
-        inputs_ok(streams(sections@), 0, limit),
+        // C15 input assumption: every stream sorted, disjoint, start <= end (any u32 coordinates)
+        inputs_ok(streams(sections@), 0),
     ensures
         [[L: starts_at_base_zero_with_nothing_parked_buffered_or_held_back]]
         !r.error && r.next_start == 0 && r.next_sections is None && r.last_val is None,
         pends(r.sections@) == streams(sections@),
-        r.hist@.wins.len() == 0 && r.hist@.emitted.len() == 0 && r.hist@.limit == limit,
+        r.hist@.wins.len() == 0 && r.hist@.emitted.len() == 0,
         [[L: establishes_state_invariant]]
         live_inv(r),
 //@open
@@ -534,7 +545,7 @@ impl ValueIter {
 //@close
     ;
     proof {
-        lemma_initial_state(r__.sections@, ss, limit);
+        lemma_initial_state(r__.sections@, ss);
         assert(r__.hist@.emitted + pending_out(r__) =~= Seq::<Value>::empty());
     }
     r__
